@@ -23,6 +23,8 @@ use std::sync::{Arc, Mutex};
 use std::time::{Duration, Instant};
 
 // ------------------------------------------------------------------------------------------------ fixtures
+/// multi-byte text: 2-byte (é ß ö), 3-byte (日本語 €), 4-byte (😀 𝄞), combining marks (e + U+0301, Devanagari), ZWJ sequence, empty
+pub const MB_WORDS: &[&str] = &["héllo", "日本語", "a😀b", "ß", "e\u{301}a\u{308}", "Ünïcödé", "€uro", "𝄞clef", "नमस्ते", "👩\u{200d}💻x", "", "añb日c😀", "ÀÉ", "ab"];
 type Tables = Vec<(String, Arc<Schema>, Vec<RecordBatch>)>;
 
 fn opt_i64(r: &mut Rng, null_pct: u64, lo: i64, hi: i64) -> Option<i64> { if r.below(100) < null_pct { None } else { Some(r.range(lo, hi)) } }
@@ -76,6 +78,13 @@ fn std_tables() -> Tables {
         b4.push(RecordBatch::try_new(s4.clone(), vec![Arc::new(Int64Array::from(kk)), Arc::new(Int32Array::from(gg))]).unwrap());
     }
     out.push(("big".into(), s4, b4));
+    // mb: multi-byte text (2-, 3-, 4-byte characters, combining marks) x small integers around the character boundaries
+    let s5 = Arc::new(Schema::new(vec![Field::new("s", DataType::Utf8, true), Field::new("n", DataType::Int64, false), Field::new("p", DataType::Utf8, true)]));
+    let mut ss: Vec<Option<String>> = vec![]; let mut ns: Vec<i64> = vec![]; let mut ps: Vec<Option<String>> = vec![];
+    for (j, w) in MB_WORDS.iter().enumerate() { for n in 0..7i64 { ss.push(Some(w.to_string())); ns.push(n); ps.push(Some(MB_WORDS[(j + n as usize) % MB_WORDS.len()].chars().take(1).collect())); } }
+    ss.push(None); ns.push(2); ps.push(None);
+    let b5 = RecordBatch::try_new(s5.clone(), vec![Arc::new(StringArray::from(ss)), Arc::new(Int64Array::from(ns)), Arc::new(StringArray::from(ps))]).unwrap();
+    out.push(("mb".into(), s5, vec![b5]));
     out
 }
 
@@ -434,6 +443,58 @@ const AGGS: &[&str] = &["COUNT","SUM","AVG","MIN","MAX","COUNT_IF","BOOL_AND","B
 const WINS: &[&str] = &["ROW_NUMBER","RANK","DENSE_RANK","PERCENT_RANK","CUME_DIST","NTILE","LAG","LEAD","FIRST_VALUE","LAST_VALUE","NTH_VALUE","SUM","COUNT","AVG","MIN","MAX"];
 const TYPES: &[&str] = &["BIGINT","INTEGER","INT","SMALLINT","TINYINT","DOUBLE","REAL","FLOAT","DECIMAL(10,2)","DECIMAL(38,10)","DECIMAL(76,0)","VARCHAR","VARCHAR(3)","CHAR(2)","TEXT","DATE","TIMESTAMP","TIME","BOOLEAN","INTERVAL","BLOB","UUID","JSON","ARRAY<INT>","INT[]","NOSUCHTYPE"];
 
+/// Function names as the engine lists them: quoted upper-case identifiers of the binder's function dispatch and of
+/// `ScalarFunction`'s Display table, read from /repo's current source (new functions are covered without touching this file);
+/// falls back to the built-in list when the source cannot be read.
+fn engine_functions() -> Vec<String> {
+    let mut out: std::collections::BTreeSet<String> = std::collections::BTreeSet::new();
+    for f in ["/repo/src/planner/binder.rs", "/repo/src/planner/logical_expr.rs"] {
+        if let Ok(t) = std::fs::read_to_string(f) {
+            let b = t.as_bytes();
+            let mut i = 0;
+            while i < b.len() {
+                if b[i] == b'"' {
+                    let mut j = i + 1;
+                    while j < b.len() && (b[j].is_ascii_uppercase() || b[j].is_ascii_digit() || b[j] == b'_') { j += 1; }
+                    if j < b.len() && b[j] == b'"' && j - i >= 3 && b[i + 1].is_ascii_uppercase() { out.insert(t[i + 1..j].to_string()); }
+                    i = j;
+                }
+                i += 1;
+            }
+        }
+    }
+    for k in ["AND","OR","NOT","CASE","END","NULL","ROWS","RANGE","LIKE","CAST","TRY_CAST","EXTRACT","IF","TRY","UTC","ASC","DESC"] { out.remove(k); }
+    if out.len() < 100 { return FUNCS.iter().map(|x| x.to_string()).collect(); }
+    out.into_iter().collect()
+}
+
+/// string functions and operators over multi-byte text with small integer arguments around the character boundaries
+fn gen_utf8(r: &mut Rng, funcs: &[String]) -> String {
+    let lit = |r: &mut Rng| format!("'{}'", r.pick(MB_WORDS).replace('\'', "''"));
+    let sarg = |r: &mut Rng| match r.below(5) { 0 | 1 => "s".to_string(), 2 => "p".to_string(), _ => lit(r) };
+    let narg = |r: &mut Rng| match r.below(4) { 0 => "n".to_string(), 1 => ["-1","7","8","100"][r.below(4) as usize].to_string(), _ => r.below(7).to_string() };
+    match r.below(10) {
+        0 => { let e = match r.below(8) {
+                0 => format!("s LIKE {}", ["'%é%'","'_本%'","'a_b'","'%😀'","p || '%'","'%' || p","'ß'","'_'","'%\u{301}%'"][r.below(9) as usize]),
+                1 => format!("s || {} || p", lit(r)),
+                2 => format!("CAST(s AS {})", ["BIGINT","DOUBLE","DATE","BOOLEAN","VARCHAR","INTEGER"][r.below(6) as usize]),
+                3 => format!("s {} {}", ["<","<=","=","<>",">",">="][r.below(6) as usize], sarg(r)),
+                4 => format!("SUBSTRING(s FROM {} FOR {})", narg(r), narg(r)),
+                5 => format!("POSITION({} IN s)", sarg(r)),
+                6 => format!("TRIM({} {} FROM s)", ["BOTH","LEADING","TRAILING"][r.below(3) as usize], sarg(r)),
+                _ => format!("s NOT LIKE {}", lit(r)) };
+               format!("SELECT s, n, {} FROM mb{}", e, if r.chance(1, 3) { " ORDER BY 1 NULLS FIRST, 2" } else { "" }) }
+        1 => format!("SELECT s, COUNT(*), MIN(p), MAX(s) FROM mb GROUP BY s ORDER BY {}", ["1", "LENGTH(s)", "UPPER(s)", "REVERSE(s)"][r.below(4) as usize]),
+        2 => format!("SELECT a.s, b.p FROM mb a JOIN mb b ON {} WHERE a.n = {} AND b.n = 0", ["a.s = b.s","a.p = b.p","LEFT(a.s, 1) = b.p","a.s LIKE b.p || '%'"][r.below(4) as usize], r.below(7)),
+        _ => {
+            let f = r.pick(funcs).clone();
+            let shape = *r.pick(&["S","SN","SN","SS","SNN","SNS","SSN","SSS","NS","SNNS","SSNN"]);
+            let args: Vec<String> = shape.chars().map(|c| if c == 'S' { sarg(r) } else { narg(r) }).collect();
+            format!("SELECT {}({}) FROM mb{}", f, args.join(", "), if r.chance(1, 4) { " WHERE n < 3" } else { "" })
+        }
+    }
+}
+
 struct Tab { name: &'static str, cols: &'static [(&'static str, char)] }
 const STD_TABS: &[Tab] = &[
     Tab { name: "t1", cols: &[("a",'i'),("b",'i'),("c",'f'),("s",'s'),("d",'d'),("e",'b'),("i",'i')] },
@@ -441,6 +502,7 @@ const STD_TABS: &[Tab] = &[
     Tab { name: "empty0", cols: &[("x",'i'),("y",'s')] },
     Tab { name: "empty1", cols: &[("x",'i'),("y",'s')] },
     Tab { name: "big", cols: &[("k",'i'),("g",'i')] },
+    Tab { name: "mb", cols: &[("s",'s'),("n",'i'),("p",'s')] },
 ];
 const SPILL_TABS: &[Tab] = &[
     Tab { name: "big", cols: &[("x",'i'),("y",'i'),("w",'s')] },
@@ -457,6 +519,7 @@ impl<'a> G<'a> {
             6 => ["0","1","-1","9223372036854775807","-9223372036854775808","9223372036854775808","2147483648","-2147483649","18446744073709551616"][self.r.below(9) as usize].into(),
             7 | 8 => format!("{}.{}", self.r.range(0, 20), ["0","5","25","125"][self.r.below(4) as usize]),
             9 => ["1e308","1e309","-1e-320","0.0","-0.0","1e0","1E+2",".5","5.","1e","0x1F","1_000"][self.r.below(12) as usize].into(),
+            10 | 11 | 12 if self.r.chance(1, 3) => format!("'{}'", self.r.pick(MB_WORDS).replace('\'', "''")),
             10 | 11 | 12 => format!("'{}'", ["", "a", "ab", "abc", "Hello", "%", "_", "a%", "%b%", "100", "-7", "1.5", "x''y", "2024-01-31", "2024-13-45", "12:30:00", "wörld", "\u{1F600}", "{\"k\":[1,2]}", "$.k[0]", "(a+)+$", "[", "\\", "UTC", "day", "yyyy-MM-dd", "%Y-%m-%d"][self.r.below(27) as usize]),
             13 => format!("DATE '{}'", ["2024-01-31","1970-01-01","0001-01-01","9999-12-31","2024-02-30","99999-01-01","x"][self.r.below(7) as usize]),
             14 => format!("TIMESTAMP '{}'", ["2024-01-31 12:30:00","1970-01-01 00:00:00","2024-01-31","bad"][self.r.below(4) as usize]),
@@ -644,7 +707,7 @@ pub fn gen_tame(r: &mut Rng) -> String {
     fn col(r: &mut Rng, t: &Tab, alias: &str) -> String { format!("{}.{}", alias, t.cols[r.below(t.cols.len() as u64) as usize].0) }
     fn expr(r: &mut Rng, sc: &[(&'static Tab, String)], d: u32) -> String {
         let pick_col = |r: &mut Rng| { let (t, a) = &sc[r.below(sc.len() as u64) as usize]; col(r, t, a) };
-        if d == 0 { return if r.chance(2, 3) { pick_col(r) } else { ["1","2","0","1.5","'a'","'abc'","TRUE","NULL","DATE '2024-01-31'"][r.below(9) as usize].to_string() }; }
+        if d == 0 { return if r.chance(2, 3) { pick_col(r) } else if r.chance(1, 4) { format!("'{}'", r.pick(MB_WORDS).replace('\'', "''")) } else { ["1","2","0","1.5","'a'","'abc'","TRUE","NULL","DATE '2024-01-31'"][r.below(9) as usize].to_string() }; }
         match r.below(16) {
             0..=3 => pick_col(r),
             4 | 5 => format!("({} {} {})", expr(r, sc, d - 1), ["+","-","*","/","%"][r.below(5) as usize], expr(r, sc, d - 1)),
@@ -809,7 +872,7 @@ fn gen_fnb(r: &mut Rng) -> String {
     }
     // typed by argument class, so that calls get past the arity/type checks and reach the kernels
     let num: &[&str] = &["k","v","a","b","c","i","-9223372036854775808","9223372036854775807","0","-1","1","2","36","37","63","64","65","100","2147483647","-2147483648","4294967296","0.5","1.5","-0.5","1e308","NULL"];
-    let st: &[&str] = &["s","name","'x'","''","'11'","'zz'","'9223372036854775807'","'[1,2]'","'{\"a\":1}'","'$.a'","'(a'","'a%'","'http://h.io/p?q=1#f'","NULL"];
+    let st: &[&str] = &["s","name","'héllo'","'日本語'","'a😀b'","'ß'","'e\u{301}'","'€uro'","'x'","''","'11'","'zz'","'9223372036854775807'","'[1,2]'","'{\"a\":1}'","'$.a'","'(a'","'a%'","'http://h.io/p?q=1#f'","NULL"];
     let dt: &[&str] = &["d","DATE '9999-12-31'","DATE '0001-01-01'","DATE '1970-01-01'","TIMESTAMP '9999-12-31 23:59:59'","CAST(d AS TIMESTAMP)","NULL"];
     let unit: &[&str] = &["'day'","'year'","'month'","'week'","'hour'","'second'","'millisecond'","'quarter'","'nosuch'"];
     let arr: &[&str] = &["ARRAY[1,2]","ARRAY[]","[1.0,2.0]","[]","ARRAY['a','b']","ARRAY[NULL]","ARRAY[9223372036854775807, 1]"];
@@ -906,8 +969,9 @@ fn run_opt(c: &Value) -> Value {
     })
 }
 
-fn gen_case(r: &mut Rng, n: usize) -> Value {
+fn gen_case(r: &mut Rng, n: usize, funcs: &[String]) -> Value {
     if n % 20 == 19 && n % 40 == 39 { return gen_opt(r); }
+    if n % 20 == 1 || n % 20 == 5 || n % 20 == 8 { return json!({"kind":"sql","setup":"std","stream":"utf8","sql":gen_utf8(r, funcs)}); }
     if n % 20 == 12 { return json!({"kind":"sql","setup":"std","stream":"fnb","sql":gen_fnb(r)}); }
     let (setup, stream, sql) = match n % 20 {
         0..=6 => ("std", "grammar", gen_grammar(r, "std", 4)),
@@ -935,12 +999,14 @@ pub fn main(o: &Opts) {
     let mut r = Rng::new(o.seed ^ 0xC29);
     // `--opt only=<stream>` (development aid): draw every case from one stream
     let only = o.get("only").map(|x| x.to_string());
+    let funcs = engine_functions();
     let cases: Vec<Value> = (0..o.cases).map(|n| match only.as_deref() {
         Some("fnb") => json!({"kind":"sql","setup":"std","stream":"fnb","sql":gen_fnb(&mut r)}),
         Some("grammar") => json!({"kind":"sql","setup":"std","stream":"grammar","sql":gen_grammar(&mut r, "std", 4)}),
         Some("deep") => json!({"kind":"sql","setup":"std","stream":"deep","sql":gen_deep(&mut r)}),
         Some("spill") => json!({"kind":"sql","setup":"spill","stream":"spill","sql":gen_spill(&mut r)}),
-        _ => gen_case(&mut r, n),
+        Some("utf8") => json!({"kind":"sql","setup":"std","stream":"utf8","sql":gen_utf8(&mut r, &funcs)}),
+        _ => gen_case(&mut r, n, &funcs),
     }).collect();
     run_all(cases, limit_ms, jobs);
 }
